@@ -35,6 +35,7 @@ type dlg struct {
 	maxChunk int
 	env      int
 	long     bool // the device's answers are longer than the (lowered) prompt search depth
+	divert   int  // -1, or the index of an event with an expected response that the device answers with its ordinary prompt instead
 }
 
 func (d dlg) name() string {
@@ -54,6 +55,9 @@ func (d dlg) name() string {
 	n := fmt.Sprintf("dlg/events=%s/early=%d/complete=%v/wrap=%v/chunk=%d/env=%d", strings.Join(s, ","), d.early, d.complete, d.wrap, d.maxChunk, d.env)
 	if d.long {
 		n += "/long"
+	}
+	if d.divert >= 0 {
+		n += fmt.Sprintf("/divert=%d", d.divert)
 	}
 	return n
 }
@@ -98,6 +102,10 @@ func dlgScenario(s dlg) sched.Scenario {
 						}
 					}
 					switch {
+					case i == s.divert:
+						// the device does not show what the event awaits: it is back at its ordinary prompt
+						out += fmt.Sprintf("text of step %d\n%s", i, prompt)
+						next = fmt.Sprintf("m%d", n)
 					case i == s.early:
 						// the device ends the dialogue early: the completion pattern is the last thing it prints
 						out += fmt.Sprintf("result of step %d  \nrouter(done)#", i)
@@ -204,6 +212,13 @@ func dlgScenario(s dlg) sched.Scenario {
 						e.Violate("c12:return-before-echo", "return of event %d written at %d delivered bytes, its echo ends at %d", i, returns[i].Delivered, inputs[i].SentAfter)
 					}
 				}
+				if s.divert >= 0 {
+					// the awaited response was never delivered: nothing further may be typed
+					if len(inputs) > s.divert+1 {
+						e.Violate("c12:input-sent-without-awaited-response", "event %d awaits %q, the device showed its prompt instead, yet input %q was written", s.divert, fmt.Sprintf("Q%d>", s.divert), inputs[s.divert+1].Data)
+					}
+					return
+				}
 				if expectErr {
 					// the device ended the dialogue and no completion pattern was given: the awaited response never comes
 					if err == nil && last < n-1 {
@@ -244,9 +259,13 @@ func cmdScenario(eager, dbl, long bool, maxChunk, env int) sched.Scenario {
 	return cmdScenarioX(eager, dbl, long, false, maxChunk, env)
 }
 
-func cmdScenarioX(eager, dbl, long, exact bool, maxChunk, env int) sched.Scenario {
+func cmdScenarioX(eager, dbl, long, exact bool, maxChunk, env int, slow ...int) sched.Scenario {
 	cmd := cm.Cmd1
 	name := fmt.Sprintf("cmd/eager=%v/chunk=%d/env=%d", eager, maxChunk, env)
+	// slow = {k, pct}: the device falls silent after k bytes of the echo and carries on pct% into the timeout
+	if len(slow) == 2 {
+		name += fmt.Sprintf("/slow-echo=%d@%d%%", slow[0], slow[1])
+	}
 	if exact {
 		name += "/exact"
 	}
@@ -299,6 +318,13 @@ func cmdScenarioX(eager, dbl, long, exact bool, maxChunk, env int) sched.Scenari
 					o = append(o, opoptions.WithExactMatchInput())
 				}
 				w0 = len(tr.Writes)
+				if len(slow) == 2 {
+					tr.StallAt = tr.Sent() + slow[0]
+					time.AfterFunc(300*cm.Ms*time.Duration(slow[1])/100, func() {
+						tr.Release()
+						e.Poke()
+					})
+				}
 				e.OpenWindow()
 				r, rerr := g.SendCommand(cmd, o...)
 				err = rerr
@@ -627,11 +653,32 @@ func scenarios(tier string) []sched.Scenario {
 						if tier != "thorough" && len(l) == 3 && mc == 3 {
 							continue
 						}
-						out = append(out, dlgScenario(dlg{l, early, complete, wrap, mc, env, false}))
+						out = append(out, dlgScenario(dlg{l, early, complete, wrap, mc, env, false, -1}))
 						if len(l) <= 2 && !wrap {
-							out = append(out, dlgScenario(dlg{l, early, complete, wrap, mc, env, true}))
+							out = append(out, dlgScenario(dlg{l, early, complete, wrap, mc, env, true, -1}))
 						}
 					}
+				}
+			}
+		}
+	}
+	for _, l := range lists {
+		for dv := 0; dv < len(l)-1; dv++ {
+			if !l[dv].resp {
+				continue
+			}
+			for _, complete := range []bool{false, true} {
+				for _, mc := range []int{0, 1} {
+					out = append(out, dlgScenario(dlg{l, -1, complete, false, mc, 1 - mc, false, dv}))
+				}
+			}
+		}
+	}
+	for _, exact := range []bool{false, true} {
+		for _, mc := range []int{0, 1} {
+			for _, k := range []int{0, 5, len(cm.Cmd1) - 1} {
+				for _, pct := range []int{10, 30, 60, 90} {
+					out = append(out, cmdScenarioX(false, false, false, exact, mc, 0, k, pct))
 				}
 			}
 		}
@@ -669,7 +716,7 @@ func TestCheck(t *testing.T) {
 	sched.Main(t, sched.Check{
 		ID:    "C12",
 		Level: "model_checking",
-		Rule: "interactive: every event list of 1..3 events over {visible,hidden} x {expected response given, prompt awaited} x {device ends the dialogue early after event i with completion patterns given} x {verbatim, wrapped echo} x read presets {whole,1,3} with every placement of up to 1 (2 thorough) extra cuts/holds; (+ answers longer than a lowered search depth); plain command eager/not eager x {ordinary, doubled last character with unread bytes before the echo, long repetitive, exact input matching}; escalation: device behaviour {asks then grants, grants without asking, refuses without asking, asks then refuses, asks and gives up in the same burst; grants/refuses also followed by an unsolicited log line} x {secret set, not} x {edge authenticated, not}; two connections of one process running dialogues at the same time; " +
+		Rule: "interactive: every event list of 1..3 events over {visible,hidden} x {expected response given, prompt awaited} x {device ends the dialogue early after event i with completion patterns given} x {verbatim, wrapped echo} x {an event's awaited response replaced by the device's ordinary prompt} x read presets {whole,1,3} with every placement of up to 1 (2 thorough) extra cuts/holds; (+ answers longer than a lowered search depth); plain command eager/not eager x {ordinary, doubled last character with unread bytes before the echo, long repetitive, exact input matching; echo interrupted after {0, 5, all but one} bytes and resumed {10,30,60,90}% into the timeout}; escalation: device behaviour {asks then grants, grants without asking, refuses without asking, asks then refuses, asks and gives up in the same burst; grants/refuses also followed by an unsolicited log line} x {secret set, not} x {edge authenticated, not}; two connections of one process running dialogues at the same time; " +
 			"the causal device model decides when answers are delivered; oracle over the shared write/delivery log: input i written only after the answer to event i-1 was delivered completely, return after echo, hidden input not awaited, result = whole dialogue, secret written only while the password prompt is displayed and delivered",
 		Assumptions: []string{"each expected response is the last thing the device prints for its event", "the device never echoes hidden input"},
 		Scenarios:   scenarios,
